@@ -55,6 +55,17 @@ def respond (line : String) : String :=
       match run bnbWindowDays l with
       | .error e => showMErr l e
       | .ok rs => showMatch rs
+  | "class" :: "negativeLot" :: txs =>
+    -- known-finding class D6: the cost pre-pass leaves some purchase with negative adjusted cost
+    match parseAll parseTx? (txs.filter (· ≠ "")) with
+    | none => "bad-request"
+    | some l =>
+      let pre := preprocess l
+      let hit := (tickersOf pre).any (fun t =>
+        match prepass t [] (daysOf t pre) with
+        | .ok lots => lots.any (fun x => decide (x.adjCost < 0))
+        | .error _ => false)
+      if hit then "yes" else "no"
   | "spec" :: txs =>
     match parseAll parseTx? (txs.filter (· ≠ "")) with
     | none => "bad-request"
